@@ -497,12 +497,16 @@ class ReadOnlyCheck:
             res.validated += 1
             srel, trel = os.path.relpath(src, sb), os.path.relpath(target, sb)
             prob = None
-            if [c for c in changed if c not in (srel, trel)]:
+            created = [c for c in changed if c not in before]
+            if [c for c in changed if c in before and c != srel]:
+                # a file that was there before (other than the metafile being
+                # renamed) was replaced, altered or removed
                 prob = "clobbered-or-changed-existing"
-            elif changed and (srel in after or trel not in after):
+            elif changed and (srel in after or len(created) != 1):
                 prob = "name-not-changed"
             elif changed:
-                with open(target, "rb") as f:
+                # under whatever new name: the same bytes
+                with open(os.path.join(sb, created[0]), "rb") as f:
                     if f.read() != raw:
                         prob = "bytes-changed"
             elif not err:
